@@ -100,6 +100,7 @@ def gen_case(rng):
         opts['regex'] = rng.sample(['A', 'D', '^A', 'D[0-9]+$', '[OK]', 'A[0-9]+D', '^[^M]', 'Y1|X1', '^M$|A', r'^A\d+', r'\d\d', r'^(?!.*\d\d)', r'[A-Z]\d$', r'^\w+$', r'\D1', r'(?i)^a', r'^[ad0-9]+$'], rng.randint(1, 2))
     base.update({'opts': opts, 'copy': rng.random() < 0.5, 'hseed': rng.getrandbits(32)})
     # history: the same --copy name asked for again (re-run of the command, or a second tuning of the copy) with a filter that would remove something
+    base['symlinked'] = rng.random() < 0.3
     if rng.random() < 0.5:
         base['uni_name'] = rng.choice(['_José', '_пароли', '_ñ', '_中'])
         base['narrow_stdout'] = rng.choice([None, 'ascii', 'ascii', 'latin-1'])
@@ -125,6 +126,14 @@ def check_case(run, case, use_cli=False):
         name, path = new, os.path.join(rules_dir, new)
         narrow = case.get('narrow_stdout')
     copyname = name + '_copy'
+    shared = None
+    if case.get('symlinked') and case['copy']:
+        # a ruleset that shares its base-structure list with another place through a symbolic link (one list, several rulesets): --copy must give a copy of
+        # its own - what the source's link points to stays untouched
+        shared = os.path.join(rules_dir, name + '_shared_grammar.txt')
+        g0 = os.path.join(path, 'Grammar', 'grammar.txt')
+        os.replace(g0, shared)
+        os.symlink(shared, g0)
     try:
         repo.scratch()
         import edit_rules as er
@@ -289,6 +298,8 @@ def check_case(run, case, use_cli=False):
     finally:
         repo.drop_rules(name)
         repo.drop_rules(copyname)
+        if shared and os.path.exists(shared):
+            os.remove(shared)
 
 def run(run, rng):
     run.required_events = ['edits', 'lists_compared', 'guess_length_checks', 'audit_events', 'cli_runs', 'copy_exists_runs']
